@@ -53,7 +53,7 @@ Lemma lock_keys_full_rpc ks rv ce loie f o s s' rk :
 Proof.
   unfold lock_keys_full. set (s1 := exit_agg ks s). intros H Hne.
   destruct (negb (pess s1) && match agg s1 with Some _ => true | None => false end); [inversion H; congruence|].
-  destruct (lo_early o); [inversion H; congruence|].
+  destruct (early_exists s1 ks); [inversion H; congruence|].
   destruct (filter (need_lock s1) ks) as [|k0 r0] eqn:Ek; [inversion H; congruence|]. rewrite <- Ek in *.
   destruct (loie && negb rv); [inversion H; congruence|].
   destruct (loie && (negb (committer s1) || match primary s1 with None => true | Some _ => false end) && many (filter (need_lock s1) ks)); [inversion H; congruence|].
@@ -106,7 +106,7 @@ Lemma lock_rpc_fail_flags all rk assigned rv ce loie f o s e :
   lo_res o = Some e -> flags (lock_rpc all rk assigned rv ce loie f o s) = flags s.
 Proof.
   intros Hr. unfold lock_rpc. cbn [flags set_ka]. unfold lock_rpc_core. rewrite Hr.
-  destruct s as [a1 a2 a3 a4 a5 ag a7 a8 a9 a10 a11 a12 a13 a14].
+  destruct s as [a1 a2 a3 a4 a5 ag a7 a8 a9 a10 a11 a12 a13 a14 a15].
   destruct assigned; destruct (many rk || may_be_locked e); destruct ag; reflexivity.
 Qed.
 
